@@ -255,8 +255,9 @@ def schedule_sweep(ctx, mine, quick):
     endpoints and the recorded execution judged by Trace_Conn."""
     import tlc as T2
     from concurrent.futures import ProcessPoolExecutor
-    # thorough: the product of the two refinements (3 datagrams x 6 fates = 279 936 schedules) is out of reach; each refinement is swept on its own
-    spaces = [(2, "FatesQuick")] if quick else [(3, "FatesQuick"), (2, "FatesThorough")]
+    # thorough: six fates instead of four for the first two datagrams of each side (7 776 schedules).  Three datagrams are out of reach for the
+    # judge: 24 576 (four fates) or 279 936 (six) recorded executions of some 600 events each are gigabytes of trace.
+    spaces = [(2, "FatesQuick")] if quick else [(2, "FatesThorough")]
     scheds = []
     for nd, fates in spaces:
         wd = T2.workdir("net")
